@@ -16,7 +16,10 @@ Decided clauses (marshalling tables and wrapper forwarding):
       invalidation propagated from them
   W7  (SUPERPOSE-SIBLING) the full-turn CylinderSegment fallback (the Cylinder interface to the same body) combines two calls of
       the cylinder function that are built the same way (rules_sibling.py)
-Not decided: dataframe ordering, value equality between interfaces.
+  W8  (LAYOUT, lay_rules.py analysis C) output='dataframe': the index columns built by product(sources, path, sensors, pixels)
+      enumerate the same index sets in the same order as the rows of B.reshape(-1, 3); the final reshape splits the result in
+      the documented (source, path, sensor, pixel) order
+Not decided: value equality between interfaces.
 """
 from __future__ import annotations
 
@@ -229,60 +232,16 @@ def w3(repo, res):
 
 
 def w4(repo, res):
-    W = repo.mod("magpylib._src.fields.field_wrap_BH")
-    fn = W.funcs.get("get_src_dict")
-    res.require(fn is not None, "anchor vanished: get_src_dict")
-    # pipelines: name -> expression it is computed from
-    defs = {}
-    for s in fn.body:
-        if isinstance(s, ast.Assign) and len(s.targets) == 1 and isinstance(s.targets[0], ast.Name):
-            defs[s.targets[0].id] = s.value
-    ret = [r for r in ast.walk(fn) if isinstance(r, ast.Return)]
-    dicts = [d for d in ast.walk(fn) if isinstance(d, ast.Dict)]
-    entry = {}
-    for d in dicts:
-        for k, v in zip(d.keys, d.values):
-            if isinstance(k, ast.Constant) and k.value in ("position", "orientation"):
-                entry[k.value] = v
-    res.require(set(entry) == {"position", "orientation"}, "get_src_dict no longer builds 'position' and 'orientation' entries")
-
-    def pipeline(e, depth=0):
-        """normalised tiling pipeline text with the source collection and the last-axis size abstracted"""
-        out = []
-        while depth < 6:
-            if isinstance(e, ast.Name) and e.id in defs:
-                e = defs[e.id]
-                depth += 1
-                continue
-            if isinstance(e, ast.Call):
-                f = ast.unparse(e.func)
-                if f in ("R.from_quat",):
-                    e = e.args[0]
-                    continue
-                if isinstance(e.func, ast.Attribute) and e.func.attr == "reshape":
-                    out.append("reshape(" + ",".join(re.sub(r"\b[34]\b", "K", ast.unparse(a)) for a in e.args) + ")")
-                    e = e.func.value
-                    continue
-                if f in ("np.tile", "np.repeat"):
-                    out.append(f + "(" + ",".join(ast.unparse(a) for a in e.args[1:]) + "," + ",".join(f"{k.arg}={ast.unparse(k.value)}" for k in e.keywords) + ")")
-                    e = e.args[0]
-                    continue
-                if f == "np.array":
-                    out.append("array[per-source comprehension]")
-                    break
-            break
-        return out
-    pp, po = pipeline(entry["position"]), pipeline(entry["orientation"])
-    ok = pp == po and len(pp) >= 2
-    res.ob("W4:get_src_dict:position/orientation tiled identically", ok, {"rule": "W4", "position_pipeline": pp, "orientation_pipeline": po})
-    if not ok:
-        res.add(Finding("W4", W.rel, "get_src_dict", f"position: {pp} vs orientation: {po}",
-                        "position and orientation paths are tiled differently: rows of the two arrays no longer describe the same (source, path index, pixel)"))
+    """W4: position, orientation, observers and per-source parameters built by get_src_dict enumerate their rows alike.
+    (Was a textual comparison of the two tiling pipelines; it raised a false alarm on an equivalent pipeline - np.repeat along the
+    path axis instead of np.tile along the last axis - and was replaced by the layout typing of lay_rules.analysis_a.)"""
+    import lay_rules
+    lay_rules.analysis_a(res, "W4")
 
 
 def run(repo, res, tier):
-    res.rules = ["W1 wrapper family + chain forwarding", "W2 rank table vs signatures and validators", "W3 core exports", "W4 sibling tiling", "W5 core functions leave their arguments unchanged",
-                 "W6 memoising getters are invalidated by every writer of their inputs", "W7 superposed sibling calls agree"]
+    res.rules = ["W1 wrapper family + chain forwarding", "W2 rank table vs signatures and validators", "W3 core exports", "W4 rows of all level-1 inputs enumerate (source, path, pixel) alike (layout typing)", "W5 core functions leave their arguments unchanged",
+                 "W6 memoising getters are invalidated by every writer of their inputs", "W7 superposed sibling calls agree", "W8 dataframe / output axis order (layout typing)"]
     w1(repo, res)
     w2(repo, res)
     w3(repo, res)
@@ -293,6 +252,8 @@ def run(repo, res, tier):
     rules_memo.run(repo, res, rule="W6")
     import rules_sibling
     rules_sibling.run(repo, res, "W7")
+    import lay_rules
+    lay_rules.analysis_c(res, "W8")
     return {}
 
 
